@@ -4611,6 +4611,10 @@ class UDFFileIdentifierDescriptor:
             except UnicodeEncodeError:
                 self.fi = bytename.encode('utf-16_be')
                 self.encoding = 'utf-16_be'
+            if len(self.fi) + 1 > 255:
+                # ECMA-167 4/14.4.4 stores the length of the compression ID
+                # plus the name in a single byte.
+                raise pycdlibexception.PyCdlibInvalidInput('UDF names can be a maximum of 254 8-bit or 127 16-bit characters')
             self.len_fi = len(self.fi) + 1
 
         self.parent = parent
